@@ -114,8 +114,13 @@ fn check(scn: &Scenario, rep: &mut Report) {
     }
     let mut stats = std::collections::BTreeMap::new();
     let mut vs = check_reference("C10", scn, &out, &mut stats);
+    vs.extend(stream_latency("C10", scn, &out, &mut stats));
     for (k, n) in stats {
-        rep.add(&k, n);
+        if k.starts_with("max_") {
+            rep.max(&k, n);
+        } else {
+            rep.add(&k, n);
+        }
     }
     if out.server_exit.is_none() {
         for (i, c) in scn.conns.iter().enumerate() {
@@ -229,6 +234,16 @@ pub fn run(cfg: &Cfg) -> Report {
         check(&b.scn, &mut rep);
         if k % 5000 == 1 {
             rep.sample(8, || json!({"kind": "random", "scenario": b.scn.describe()}));
+        }
+    }
+    // (3) open streams next to a client that keeps the server busy with a long burst of calls
+    let n_flood = if miri { 0 } else { cfg.n(1200, 40_000) };
+    for k in 0..n_flood {
+        let scn = crate::c18::build_flood(&mut rng);
+        rep.count("streams_under_flood_cases");
+        check(&scn, &mut rep);
+        if k < 2 {
+            rep.sample(10, || json!({"kind": "streams-under-flood", "scenario": scn.describe().chars().take(900).collect::<String>()}));
         }
     }
     rep.add("distinct_event_orders", orders.len() as u64);
